@@ -64,6 +64,14 @@ def gen_cases(tier, seed):
         r = random.Random(rng.randrange(1 << 30))
         cases.append({'tree': nested[i % len(nested)], 'xtalk': False, 'capacity': r.choice([2, 4, 16]), 'callers': r.choice([2, 3, 4]), 'per_caller': r.choice([10, 25]),
                       'advid': r.choice([None, 'lifo', 'random']), 'mode': 'async' if i % 3 == 1 else 'sync', 'fuzz': r.random() < 0.5, 'seed': r.randrange(1 << 30)})
+    # several worker processes answering at the same time with results far above PIPE_BUF (4 KiB) and above the pipe's capacity (64 KiB):
+    # many writers on one output pipe, messages that do not fit one write
+    P = lambda tag, n=1, b=0: ['P', tag, n, b, {}]  # noqa: E731
+    bigtrees = [P('A', 3), ['Sw', [P('A', 2), P('B', 1)]], ['Seq', [T('A', 3), P('B', 2)]], ['Ens', False, [P('A', 2), P('B', 2)]]]
+    for i in range(4 if tier == 'quick' else 24):
+        r = random.Random(rng.randrange(1 << 30))
+        cases.append({'tree': bigtrees[i % len(bigtrees)], 'xtalk': False, 'capacity': 32, 'callers': 8, 'per_caller': 6, 'advid': None, 'pad': [6000, 150_000, 20_000, 1_000_000][(i // 4 + i) % 4],
+                      'mode': 'async' if i % 4 == 3 else 'sync', 'fuzz': False, 'seed': r.randrange(1 << 30)})
     twins = [['Ens', False, [T('A'), T('B')]], ['Seq', [T('A'), T('B', 1, 3)]], ['Sw', [T('A'), T('B')]], ['Ens', True, [T('A'), ['Seq', [T('B'), T('C')]]]], T('A', 2, 3)]
     for i in range(10 if tier == 'quick' else 100):
         r = random.Random(rng.randrange(1 << 30))
@@ -74,7 +82,14 @@ def gen_cases(tier, seed):
     return cases
 
 
-def make_requests(rng, tree, client, n, xtalk=False):
+_PADS = {}
+
+
+def make_requests(rng, tree, client, n, xtalk=False, pad=0):
+    if pad:
+        # plain successful requests whose results are big (the stage's result carries its input)
+        p = _PADS.setdefault(pad, 'x' * pad)
+        return [(('tok', client, s, (('_', 'pad', p),)), 60) for s in range(n)]
     lv = SH.leaves(tree)
     sw = SH.has_switch(tree)
     reqs = []
@@ -168,7 +183,7 @@ def run_sync(case, tree, servlet, viol, obs, shadow_box, fz):
     rng = random.Random(case['seed'])
     server = Server(servlet, capacity=case['capacity'])
     shadow_box.append(SH.install_ledger_shadow(server))
-    plans = [make_requests(rng, tree, c + case.get('client_base', 0), case['per_caller'], case.get('xtalk')) for c in range(case['callers'])]
+    plans = [make_requests(rng, tree, c + case.get('client_base', 0), case['per_caller'], case.get('xtalk'), case.get('pad', 0)) for c in range(case['callers'])]
     lock = threading.Lock()
 
     def caller(c):
@@ -229,7 +244,7 @@ def run_async(case, tree, servlet, viol, obs, shadow_box, fz):
     from mpservice.mpserver import AsyncServer
 
     rng = random.Random(case['seed'])
-    plans = [make_requests(rng, tree, c + case.get('client_base', 0), case['per_caller'], case.get('xtalk')) for c in range(case['callers'])]
+    plans = [make_requests(rng, tree, c + case.get('client_base', 0), case['per_caller'], case.get('xtalk'), case.get('pad', 0)) for c in range(case['callers'])]
 
     async def main():
         server = AsyncServer(servlet, capacity=case['capacity'])
